@@ -77,6 +77,9 @@ type Case struct {
 	Retry bool `json:"retry_after_adding_the_path,omitempty"`
 	// Recurse[d]: directory d is put on the search path as "d/...": d and everything below it is searched
 	Recurse []bool `json:"recursive_dirs,omitempty"`
+	// Cwd: directory 0 is not put on the search path; the process stands in it while the module is fetched ("the
+	// current directory is always checked first, no matter the value of Path", findFile)
+	Cwd bool `json:"first_directory_is_the_current_one,omitempty"`
 	// revsub: revisions of one module that each include the submodule "sub"
 	RevMods []RevMod `json:"revision_modules,omitempty"`
 	SubRevs []string `json:"submodule_revisions,omitempty"` // "" = a text without revision
@@ -474,7 +477,19 @@ func checkFiles(c Case, o *ev.Outcome) {
 			o.Class("recursive-search-path-entry")
 			p = filepath.Join(p, "...")
 		}
+		if c.Cwd && d == 0 {
+			continue
+		}
 		ms.AddPath(p)
+	}
+	if c.Cwd {
+		// one case at a time runs in this process and nothing else in it uses relative paths
+		o.Class("first-directory-is-the-current-one")
+		old, err := os.Getwd()
+		if err != nil || os.Chdir(dirs[0]) != nil {
+			panic(fmt.Sprint("chdir ", dirs[0], ": ", err))
+		}
+		defer os.Chdir(old)
 	}
 	for _, f := range c.Files {
 		if f.Sub != "" && !f.Dir2 && !c.searched(f) {
@@ -1096,10 +1111,11 @@ func genFiles(t *rapid.T) Case {
 	// down); below a plain entry, files in sub-directories are not candidates at all.
 	subs := []string{"", "s1", "s1/s2", "a0", "zz/y"}
 	home := make([]string, c.Dirs)
+	c.Cwd = rapid.IntRange(0, 4).Draw(t, "first-directory-is-the-current-one") == 0
 	if rapid.IntRange(0, 2).Draw(t, "sub-directories") == 0 {
 		c.Recurse = make([]bool, c.Dirs)
 		for d := range c.Recurse {
-			c.Recurse[d] = rapid.Bool().Draw(t, "recursive-entry")
+			c.Recurse[d] = rapid.Bool().Draw(t, "recursive-entry") && !(c.Cwd && d == 0) // the current directory is searched by itself
 			home[d] = rapid.SampledFrom(subs).Draw(t, "candidates-live-in")
 		}
 	}
@@ -1132,7 +1148,7 @@ func genFiles(t *rapid.T) Case {
 			c.Files = append(c.Files, f)
 		}
 	}
-	c.Retry = rapid.IntRange(0, 3).Draw(t, "retry-after-adding-the-path") == 0
+	c.Retry = rapid.IntRange(0, 3).Draw(t, "retry-after-adding-the-path") == 0 && !c.Cwd
 	if c.ViaImp && rapid.IntRange(0, 2).Draw(t, "dated-import") == 0 {
 		for _, f := range c.Files {
 			if !f.Dir2 && c.searched(f) && strings.HasPrefix(f.Name, w+"@") && strings.HasSuffix(f.Name, ".yang") && dateRE(strings.TrimSuffix(strings.TrimPrefix(f.Name, w+"@"), ".yang")) {
